@@ -54,7 +54,15 @@ class Validator:
     if not mod:
       raise gfapy.TypeError(
         "Datatype unknown: {}".format(repr(datatype)))
-    return mod.validate_decoded(obj)
+    try:
+      return mod.validate_decoded(obj)
+    except gfapy.Error:
+      raise
+    except Exception as err:
+      raise gfapy.TypeError(
+        "The value of field {} ".format(fieldname)+
+        "is not compatible with the datatype {}\n".format(datatype)+
+        "{}: {}".format(err.__class__.__name__, err)) from err
 
   @staticmethod
   def __validate_encoded_gfa_field(obj, datatype, fieldname = None):
@@ -78,4 +86,12 @@ class Validator:
     if not mod:
       raise gfapy.TypeError(
         "Datatype unknown: {}".format(repr(datatype)))
-    return mod.validate_encoded(obj)
+    try:
+      return mod.validate_encoded(obj)
+    except gfapy.Error:
+      raise
+    except Exception as err:
+      raise gfapy.FormatError(
+        "The value of field {} ".format(fieldname)+
+        "is not compatible with the datatype {}\n".format(datatype)+
+        "{}: {}".format(err.__class__.__name__, err)) from err
